@@ -727,6 +727,32 @@ def clause_relative_cp(ctx):
              if isinstance(c, ast.Call) and call_name(c) == "self.fit"]
     ctx.check(len(after) >= 1, lp, "fit after anchoring",
               "the anchored interval of the last pass is never fitted")
+    # the passes are not cut short by a tolerance test
+    for x in ast.walk(lp):
+        if not isinstance(x, (ast.Break, ast.Return)):
+            continue
+        conds = conditions_at(x, stop=lp)
+        txt = " and ".join(repr(c) for c in conds)
+        tol = any(isinstance(n_, ast.Call) and (call_name(n_) or "").split(
+            ".")[-1] in ("allclose", "isclose") for c in conds
+            for n_ in ast.walk(c.node)) or any(
+            isinstance(n_, ast.Compare) and isinstance(
+                n_.ops[0], (ast.Lt, ast.LtE)) and "abs(" in norm(n_)
+            for c in conds for n_ in ast.walk(c.node))
+        exact = bool(conds) and all(isinstance(c.node, ast.Compare)
+                                    and isinstance(c.node.ops[0], ast.Eq)
+                                    and c.pol for c in conds)
+        if tol:
+            ctx.fail(x, f"early exit of the anchored passes under {txt[:60]}",
+                     f"the anchored passes stop as soon as `{txt[:80]}`: a "
+                     f"tolerance (numpy's default atol is 1e-8 m, several "
+                     f"samples) decides that the contact point has "
+                     f"converged, the final interval is then anchored at "
+                     f"the contact point of an earlier pass, not at the "
+                     f"reported one")
+        elif not exact:
+            raise Undecided(f"relative-cp passes can stop early under "
+                            f"{txt[:60]}")
     # re-anchoring: between the fit of one pass and the interval of the
     # next, the contact point is read again from the fitted parameters
     cfg = L.cfg
